@@ -1,7 +1,8 @@
 (* C05 — Momentums come only from the elected pillar; the schedule is deterministic.
    Only statements; each is closed by a lemma proved in theories/. *)
 From Coq Require Import Permutation.
-From ZV Require Import Prelude GoSem Election ElectionProofs MomentumVerif MomentumVerifProofs.
+From ZV Require Import Prelude GoSem Election ElectionProofs MomentumVerif MomentumVerifProofs MomentumVerifSource.
+Require ZV.gen.Pure ZV.gen.PureMomentumVerifier.
 From ZV.gen Require Import Consts.
 Open Scope Z_scope.
 
@@ -118,3 +119,40 @@ Proof. vm_compute. reflexivity. Qed.
 Example C05_accept_example :
   accepted id_perm 5 2 10 1000 (fun _ => ex_delegs) ex_ctx ex_mom = true.
 Proof. vm_compute. reflexivity. Qed.
+
+(* ---- the checks of the momentum acceptance model ARE the code: rawMomentumVerifier.all() and
+   momentumTransactionVerifier.all() with the methods they call (verifier/momentum.go) are translated from /repo's source
+   by go2coq on every run (gen/Pure.v: rmv_..., mtv_...) and equal the model. Inputs of the translations: the frontier of
+   the verifier's store (= the parent), the comparison with time.Now()+10s, the result of content() (modelled by hand:
+   content_check), PatchHash, ComputeHash, VerifySignature, VerifyMomentumProducer. mcode maps go2coq's error numbers
+   to verr_code. *)
+Theorem C05_raw_verify_shape : forall cx m,
+  raw_verify cx m =
+  if mo_height m =? 1 then VNotGenesis else
+  if mo_prev m =? 0 then VPrevHashMissing else
+  match find_mom (cx_chain cx) (mo_prev m) (u64 (mo_height m - 1)) with
+  | None => VPreviousMissing
+  | Some par => raw_tail par cx m
+  end.
+Proof. exact raw_verify_unfold. Qed.
+Theorem C05_raw_checks_are_the_source :
+  forall (enc : Z -> Z -> Z), (forall a b a' b', enc a b = enc a' b' -> a = a' /\ b = b') ->
+  forall par cx m ce,
+  mo_height m <> 1 -> mo_prev m <> 0 ->
+  mcode ce = verr_code (content_check cx m) ->
+  mcode (ZV.gen.PureMomentumVerifier.rmv_all (mo_chain m) (cx_chain_id cx) (mo_version m) (to_int64 (mo_ts m))
+           (time_sec (cx_now cx) + 10 <? time_sec (mo_ts m)) 0 (m_ts par) (mo_ts m)
+           (mo_height m) (mo_prev m =? 0) 0
+           (enc (mo_prev m) (u64 (mo_height m - 1))) (enc (m_hash par) (m_height par))
+           (mo_data_len m) ce)
+  = verr_code (raw_tail par cx m).
+Proof. exact raw_all_is_source. Qed.
+Theorem C05_transaction_checks_are_the_source :
+  forall perm nc rc bt genesis delegs_at cx m changes result err sigerr,
+  producer_answer (producer_part perm nc rc bt genesis delegs_at cx m) result err ->
+  (sigerr = 0 <-> mo_pk_len m = 32) ->
+  mcode (ZV.gen.PureMomentumVerifier.mtv_all changes (mo_changes m) (cx_hash cx) (mo_hash m) (mo_sig_len m) (mo_pk_len m)
+           (cx_sig_ok cx) sigerr result err)
+  = verr_code (tx_verify perm nc rc bt genesis delegs_at cx m changes).
+Proof. exact tx_all_is_source. Qed.
+
